@@ -200,7 +200,9 @@ def run_fjob(args):
 def store_jobs(tier, rnd):
     """TLC: states of CifStore with every enabled call and its predicted result"""
     configs = [("base", dict(MaxHist=3, VALS='{"u", "s1", "T"}'), 0), ("loops", dict(SCRIPT="ScriptLoop1", MaxHist=1, NAMES='{"_x", "_X", "_y", "_z", "bad"}', MaxNames=2, MaxPkt=2, MaxLast=3, MaxId=2, PVALS='{"s1", "s2", "L"}', VALS='{"u", "s1", "L"}'), 1),
-               ("nest", dict(SCRIPT="ScriptNest", MaxHist=1, MaxId=3, CSLOTS="MCCSlots2"), 2)]
+               ("nest", dict(SCRIPT="ScriptNest", MaxHist=1, MaxId=3, CSLOTS="MCCSlots2"), 2),
+               # an open iterator that has delivered a packet: update / remove / next that do something
+               ("busy", dict(SCRIPT="ScriptBusy1", MaxHist=1, NAMES='{"_x", "_y", "_z", "bad"}', MaxNames=2, MaxPkt=2, MaxLast=3, MaxId=2, PVALS='{"s1", "s2", "L"}', VALS='{"s1"}', FOREIGN="TRUE"), 1)]
     if tier != "quick":
         configs = [("base", dict(MaxHist=4, VALS='{"u", "s1", "T"}'), 0), ("loops", dict(SCRIPT="ScriptLoop", MaxHist=2, NAMES='{"_x", "_X", "_y", "_z", "bad"}', MaxNames=2, MaxPkt=2, MaxLast=4, MaxId=2, PVALS='{"s1", "s2", "L"}', VALS='{"u", "s1", "L"}'), 1),
                    ("nest", dict(SCRIPT="ScriptNest", MaxHist=2, MaxId=3, CSLOTS="MCCSlots2"), 2)]
